@@ -122,10 +122,10 @@ static int compare_prefix_wrap(const void* a, const void* b) {
 
 static int compare_str_noaccent(const char* key, const char* elm) {
     for (;;) {
-        while (*key < 0) { /* skip non-ASCII */
+        while (*key & 0x80) { /* skip non-ASCII */
             ++key;
         }
-        while (*elm < 0) { /* skip non-ASCII */
+        while (*elm & 0x80) { /* skip non-ASCII */
             ++elm;
         }
         if (*key == '\0' || *key != *elm) {
@@ -145,10 +145,10 @@ static int compare_str_noaccent_wrap(const void* a, const void* b) {
 
 static int compare_prefix_noaccent(const char* key, const char* elm, int n) {
     for (int i = 1; ; ++i) {
-        while (*key < 0) { /* skip non-ASCII */
+        while (*key & 0x80) { /* skip non-ASCII */
             ++key;
         }
-        while (*elm < 0) { /* skip non-ASCII */
+        while (*elm & 0x80) { /* skip non-ASCII */
             ++elm;
         }
         if (*key == '\0') {
@@ -157,7 +157,7 @@ static int compare_prefix_noaccent(const char* key, const char* elm, int n) {
         if (i >= n) {
             /* the key ends here, possibly followed by accents only */
             const char* rest = key + 1;
-            while (*rest < 0) { /* skip non-ASCII */
+            while (*rest & 0x80) { /* skip non-ASCII */
                 ++rest;
             }
             if (*rest == '\0') {
@@ -170,10 +170,10 @@ static int compare_prefix_noaccent(const char* key, const char* elm, int n) {
         ++key;
         ++elm;
     }
-    while (*key < 0) { /* skip non-ASCII */
+    while (*key & 0x80) { /* skip non-ASCII */
         ++key;
     }
-    while (*elm < 0) { /* skip non-ASCII */
+    while (*elm & 0x80) { /* skip non-ASCII */
         ++elm;
     }
     return (*key > *elm) - (*key < *elm);
